@@ -254,6 +254,7 @@ class CalculationExecutor:
             f"{self.name}{self.method.name}{repr(self.input.keywords)}"
             f"{self.molecule}{self.method.implicit_solvation_type}"
             f"{self.molecule.constraints}"
+            f"{_point_charges_str(self.input.point_charges)}"
         )
 
         hasher = hashlib.sha1(string.encode()).digest()
@@ -514,6 +515,16 @@ class CalculationExecutorH(_IndirectCalculationExecutor):
             (bool):
         """
         return self.molecule.hessian is not None
+
+
+def _point_charges_str(point_charges) -> str:
+    """String of the point charges a calculation is embedded in"""
+    if point_charges is None:
+        return ""
+
+    return str(
+        [(pc.charge, *(float(x) for x in pc.coord)) for pc in point_charges]
+    )
 
 
 def _string_without_leading_hyphen(s: str) -> str:
